@@ -1,4 +1,4 @@
 SPECIFICATION Spec
 CONSTANTS WebFirst = TRUE
-INVARIANTS TypeOK AnsweredOnce HandlerGuarded GrpcNeedsH2 WebServed
+INVARIANTS TypeOK AnsweredOnce HandlerGuarded GrpcNeedsH2 WebServed FunctionAgrees
 PROPERTY Answered
